@@ -5,7 +5,7 @@ from rules import common
 
 CLAIMED = True
 TECHNIQUE = "static analysis over type-checked MIR: iterator-type and index-expression recovery of the shift loop (linear forms over base/count), call-order/dominance of the final move, error-edge classification of move_file, per-arm ordering of the compression variants, file-system effect inventory with path provenance over the roller modules, panic-site inventory of the roll cone"
-LEVEL_TEXT = """Static, all-paths decision of the shift/effect clauses: (R1) the shift loop iterates a reversed u32 range and moves pattern(i) to pattern(i+1) (both via replace("{}", i) and env expansion); (R2) the range is base .. base+count-1 as a linear form over the roller's own base/count (checked/unchecked variants alike); (R3) after the loop the rolled file is moved/compressed into pattern(base) and that error is propagated; (R4) count == 0 only removes the file and returns that result; (R5) move_file: rename first, Ok => Ok, NotFound => Ok, otherwise copy then remove the source only on success; (R6) compression arms: None => move_file, gzip/zstd => open, create, copy, finish, and remove the source only after finish succeeded; (R7) the roller modules' file-system mutators are within {rename, copy, remove_file, create_dir_all, File::create} and every path derives from the pattern+index, the rolled file or a temp name derived from it; (R8) DeleteRoller::roll = remove_file(file), result returned; (R9) no un-discharged panic site in the cone of the Roll implementations. Byte-for-byte contents after N rolls and the decompression round trip are not decided."""
+LEVEL_TEXT = """Static, all-paths decision of the shift/effect clauses: (R1) the shift loop iterates a reversed u32 range and moves pattern(i) to pattern(i+1) (both via replace("{}", i) and env expansion); (R2) the range is base .. base+count-1 as a linear form over the roller's own base/count (checked/unchecked variants alike); (R3) after the loop the rolled file is moved/compressed into pattern(base) and that error is propagated; (R4) count == 0 only removes the file and returns that result; (R5) move_file: rename first, Ok => Ok, NotFound => Ok, otherwise copy then remove the source only on success; (R6) compression arms: None => move_file, gzip/zstd => open, create, copy, finish, and remove the source only after finish succeeded; (R7) the roller modules' file-system mutators are within {rename, copy, remove_file, create_dir_all, File::create} and every path derives from the pattern+index, the rolled file or a temp name derived from it; (R8) DeleteRoller::roll = remove_file(file), result returned; (R9) no un-discharged panic site in the cone of the Roll implementations. Byte-for-byte contents after N rolls and the decompression round trip are not decided. (R16) a roller built from a document has the document's base, pattern and count; (R17n1-n7) the C19 rule set on expand_env_vars as a premise of every archive name."""
 LEVEL_NOTE = "Trusted: rustc MIR/callee resolution; std::fs rename/copy/remove semantics; flate2/zstd encoders; str::replace. Decides the shape of the shift and the effect inventory on all paths, not directory contents."
 EXPLANATION = """Decided: R1 shift order, R2 range linear form, R3 final step, R4 count==0, R5 move_file contract, R6 compression ordering (configs with gzip/zstd), R7 effect inventory, R8 delete roller, R9 panic inventory. Undecided: contents after any number of rolls, decompression round trip, all initial directory states."""
 DECIDED = ["R1", "R2", "R3", "R4", "R5", "R6", "R7", "R8", "R9", "R11 a successful roll has taken the file away", "R12 staging name checked absent", "R13 archive write errors surface", "R14 one background rotation at a time; a lowered busy flag is always handed to a worker", "R5+ on every success path of move_file the source is gone"]
@@ -42,9 +42,14 @@ def roles(p):
         # the shift loop spelled `(base..last).rev().try_for_each(|i| ..)`: the loop it denotes
         loops = [f for f in fns if p.fn_loops(f.path).back_edges() and any(p.fn_loops(f.path).in_loop(c.block) for c in p.fn_loops(f.path).calls(mv[0].path))]
         as_adaptor = True
+    as_results = False
+    if not loops:
+        # ... with the move inside `.and_then(|()| move_file(..))`: Result combinators over closures as the matches they denote
+        loops = [f for f in fns if p.fn_results(f.path).back_edges() and any(p.fn_results(f.path).in_loop(c.block) for c in p.fn_results(f.path).calls(mv[0].path))]
+        as_results = True
     if len(loops) != 1:
         raise AnchorMissing("expected one looping function calling the move helper in Cone(FixedWindowRoller::roll), found %s" % [f.path for f in loops])
-    r["rotate"] = p.fn_loops(loops[0].path) if as_adaptor else p.fn_closure_calls(loops[0].path)     # a local closure naming the archive path is a local helper
+    r["rotate"] = p.fn_results(loops[0].path) if as_results else p.fn_loops(loops[0].path) if as_adaptor else p.fn_closure_calls(loops[0].path)     # a local closure naming the archive path is a local helper
     rot = r["rotate"]
     head = loop_head(rot, mv[0].path)
     comp = [c for c in rot.calls() if c.callee in p.fns and not rot.in_loop(c.block) and c.callee != EXPAND and head is not None and rot.dominates(head, c.block)]
@@ -562,6 +567,11 @@ def run_cfg(ctx, p, cfg):
     feats = set(p.meta.get("features", []))
     bg = "background_rotation" in feats
     rule_shift_order(ctx, p, cfg, "R1")
+    # "patterns with $ENV references": every archive name goes through expand_env_vars, so the names are the documented ones only
+    # if the expansion is (C19's rules on the scanner, its constants, guards and offsets, re-evaluated as R17n1..n7)
+    from rules import c19
+    with ctx.premise("R17"):
+        c19.run_cfg(ctx, p, cfg)
     if "config_parsing" in feats:
         from rules import c14
         c14.rule_roller_window_from_document(ctx, p, cfg, "R16")   # "base b and count c" are the document's when the roller comes from a file
@@ -808,9 +818,18 @@ def path_provenance_ok(p, f, a, ro, pr):
             return (any(x == ("param", 2) for x in params), "the file handed to Roll::roll")
         root = f.d.get("closure_of") or f.path
         callers = p.all_calls(root)
-        if any(c.fn.path == ro["rotate"].path for c in callers):
+        def _in_rotate(g):
+            """the shift function itself or a closure (of a closure ..) written in it"""
+            path_, n_ = g.path, 0
+            while path_ in p.fns and n_ < 6:
+                if path_ == ro["rotate"].path:
+                    return True
+                path_ = p.fns[path_].d.get("closure_of") or p.fns[path_].d.get("closure_parent") or ""
+                n_ += 1
+            return path_ == ro["rotate"].path
+        if any(_in_rotate(c.fn) for c in callers):
             # the shift function is examined with its local closures spliced in (roles)
-            callers = [c for c in callers if c.fn.path != ro["rotate"].path] + list(ro["rotate"].calls(root))
+            callers = [c for c in callers if not _in_rotate(c.fn)] + list(ro["rotate"].calls(root))
         if not callers and f.d.get("closure_of"):
             return True, "closure capture of %s" % root
         if callers:
